@@ -1296,6 +1296,7 @@ static int op_alias_reg_imm(
       else
     {
       print_error(asm_context, "Illegal immediate value");
+      return -1;
     }
   }
     else
